@@ -261,13 +261,15 @@ Qed.
 (** * the registry *)
 
 Definition heap_ok (s : svc) : Prop := Forall (fun o => part_ok (o_grp o)) (heap s).
-(** connected peers of registered groups are neighbours, or their disconnect is still queued *)
-Definition conn_ok (s : svc) : Prop :=
-  forall gid i o p, In (gid, i) (gmap s) -> nth_error (heap s) i = Some o ->
-    In p (g_conn (o_grp o)) -> In p (nbrs s) \/ In p (pend s).
 (** registered indices point into the heap *)
 Definition gmap_ok (s : svc) : Prop := forall gid i, In (gid, i) (gmap s) -> (i < length (heap s))%nat.
-Definition sinv (s : svc) : Prop := heap_ok s /\ conn_ok s /\ gmap_ok s.
+(** connected peers of registered groups are neighbours, or their disconnect is
+    still queued, or — [X p i], used by the concurrent model of ProofsConc —
+    the disconnect handler is at work on [p] and has not reached object [i] yet *)
+Definition conn_ok (X : addr -> nat -> Prop) (s : svc) : Prop :=
+  forall gid i o p, In (gid, i) (gmap s) -> nth_error (heap s) i = Some o ->
+    In p (g_conn (o_grp o)) -> In p (nbrs s) \/ In p (pend s) \/ X p i.
+Definition sinv (X : addr -> nat -> Prop) (s : svc) : Prop := heap_ok s /\ conn_ok X s /\ gmap_ok s.
 
 Lemma upd_nth_length {A} i (f : A -> A) l : length (upd_nth i f l) = length l.
 Proof. revert i; induction l as [|x t IH]; intros [|i]; cbn; auto. Qed.
@@ -308,12 +310,12 @@ Qed.
 
 (** a change of one object by a function that keeps [part_ok] and whose
     connected list only gains [extra] *)
-Lemma on_obj_inv i f s (extra : addr -> Prop) :
-  sinv s ->
+Lemma on_obj_inv X i f s (extra : addr -> Prop) :
+  sinv X s ->
   (forall g, part_ok g -> part_ok (f g)) ->
   (forall g y, part_ok g -> In y (g_conn (f g)) -> In y (g_conn g) \/ extra y) ->
-  (forall y, extra y -> In y (nbrs s) \/ In y (pend s)) ->
-  sinv (on_obj i f s).
+  (forall y gid, extra y -> In (gid, i) (gmap s) -> In y (nbrs s) \/ In y (pend s) \/ X y i) ->
+  sinv X (on_obj i f s).
 Proof.
   intros (Hh & Hc & Hg) Hf Hconn Hex. unfold sinv, on_obj, set_heap, heap_ok, conn_ok, gmap_ok in *; cbn.
   split; [|split].
@@ -323,26 +325,26 @@ Proof.
     + destruct (nth_error (heap s) j) as [o0|] eqn:E0; [|discriminate]. cbn in Hnth. injection Hnth as <-. cbn in Hp.
       assert (Hpo : part_ok (o_grp o0)).
       { rewrite Forall_forall in Hh. apply Hh. eapply nth_error_In; eassumption. }
-      apply Hconn in Hp; [|assumption]. destruct Hp as [Hp|Hp]; [eapply Hc; eassumption | auto].
+      apply Hconn in Hp; [|assumption]. apply Nat.eqb_eq in E. subst j. destruct Hp as [Hp|Hp]; [eapply Hc; eassumption | eauto].
     + eapply Hc; eassumption.
   - intros gid j Hin. rewrite upd_nth_length. eauto.
 Qed.
 
-Lemma obj_add_inv i p keep s : sinv s -> sinv (obj_add i p keep s).
+Lemma obj_add_inv X i p keep s : sinv X s -> sinv X (obj_add i p keep s).
 Proof.
   intros H. unfold obj_add.
-  apply (on_obj_inv i _ s (fun y => y = p /\ is_nbr s p = true)); try assumption.
+  apply (on_obj_inv X i _ s (fun y => y = p /\ is_nbr s p = true)); try assumption.
   - intros g. apply g_add_ok.
   - intros g y Hg Hy. apply g_add_conn in Hy; [|apply Hg]. destruct Hy as [Hy|(-> & Hn & _)]; [now left | right; auto].
-  - intros y [-> Hn]. left. now apply ps_exists_In.
+  - intros y gid [-> Hn] _. left. now apply ps_exists_In.
 Qed.
-Lemma obj_remove_inv i p ik s : sinv s -> sinv (obj_remove i p ik s).
+Lemma obj_remove_inv X i p ik s : sinv X s -> sinv X (obj_remove i p ik s).
 Proof.
   intros H. unfold obj_remove.
-  apply (on_obj_inv i _ s (fun _ => False)); try assumption.
+  apply (on_obj_inv X i _ s (fun _ => False)); try assumption.
   - intros g. apply g_remove_ok.
   - intros g y Hg Hy. apply g_remove_conn in Hy; [|apply Hg]. left; tauto.
-  - intros y [].
+  - intros y ? [].
 Qed.
 
 Lemma obj_add_frame i p keep s : gmap (obj_add i p keep s) = gmap s /\ nbrs (obj_add i p keep s) = nbrs s /\ pend (obj_add i p keep s) = pend s /\ pgs (obj_add i p keep s) = pgs s /\ length (heap (obj_add i p keep s)) = length (heap s).
@@ -350,7 +352,7 @@ Proof. unfold obj_add, on_obj, set_heap; cbn. rewrite upd_nth_length. auto. Qed.
 Lemma obj_remove_frame i p ik s : gmap (obj_remove i p ik s) = gmap s /\ nbrs (obj_remove i p ik s) = nbrs s /\ pend (obj_remove i p ik s) = pend s /\ pgs (obj_remove i p ik s) = pgs s /\ length (heap (obj_remove i p ik s)) = length (heap s).
 Proof. unfold obj_remove, on_obj, set_heap; cbn. rewrite upd_nth_length. auto. Qed.
 
-Lemma new_group_inv gid t s : sinv s -> sinv (fst (new_group gid t s)).
+Lemma new_group_inv X gid t s : sinv X s -> sinv X (fst (new_group gid t s)).
 Proof.
   intros (Hh & Hc & Hg). unfold new_group, sinv, heap_ok, conn_ok, gmap_ok in *; cbn.
   split; [|split].
@@ -364,7 +366,7 @@ Qed.
 Lemma new_group_frame gid t s : nbrs (fst (new_group gid t s)) = nbrs s /\ pend (fst (new_group gid t s)) = pend s.
 Proof. now cbn. Qed.
 
-Lemma get_or_create_inv gid s : sinv s -> sinv (fst (get_or_create gid s)).
+Lemma get_or_create_inv X gid s : sinv X s -> sinv X (fst (get_or_create gid s)).
 Proof.
   intros H. unfold get_or_create. destruct (get_group s gid); [assumption|]. now apply new_group_inv.
 Qed.
@@ -373,18 +375,18 @@ Qed.
 Lemma fold_inv {A S} (P : S -> Prop) (f : S -> A -> S) l : (forall s a, P s -> P (f s a)) -> forall s, P s -> P (fold_left f l s).
 Proof. intros Hf. induction l as [|a l IH]; intros s Hs; cbn; auto. Qed.
 
-Lemma update_peer_groups_inv p gids s : sinv s -> sinv (update_peer_groups p gids s).
+Lemma update_peer_groups_inv X p gids s : sinv X s -> sinv X (update_peer_groups p gids s).
 Proof.
   intros H. unfold update_peer_groups.
   set (s1 := fold_left _ (match amap_get p (pgs s) with Some l => l | None => [] end) s).
-  assert (H1 : sinv s1).
+  assert (H1 : sinv X s1).
   { apply fold_inv; [|assumption]. intros s0 i Hs0.
     destruct (nth_error (heap s0) i); [|assumption].
     destruct (existsb _ gids); [assumption|]. now apply obj_remove_inv. }
   clearbody s1.
   set (r := fold_left _ gids (s1, [])).
-  assert (H2 : sinv (fst r)).
-  { subst r. apply (fold_inv (fun sn : svc * list nat => sinv (fst sn))); [|assumption].
+  assert (H2 : sinv X (fst r)).
+  { subst r. apply (fold_inv (fun sn : svc * list nat => sinv X (fst sn))); [|assumption].
     intros [s0 now] gid Hs0. cbn in Hs0.
     destruct (get_or_create gid s0) as [s' i] eqn:E. cbn.
     apply obj_add_inv. change s' with (fst (s', i)). rewrite <- E. now apply get_or_create_inv. }
@@ -392,16 +394,16 @@ Proof.
   destruct H2 as (A & B & C). split; [|split]; assumption.
 Qed.
 
-Lemma gc_one_inv s gi : sinv s -> sinv (gc_one s gi).
+Lemma gc_one_inv X s gi : sinv X s -> sinv X (gc_one s gi).
 Proof.
   intros H. unfold gc_one. destruct (nth_error (heap s) (snd gi)) as [o|]; [|assumption].
   destruct (o_type o); try assumption.
   set (s1 := on_obj (snd gi) (fun g => mkGroup (g_conn g) [] []) s).
-  assert (H1 : sinv s1).
-  { subst s1. apply (on_obj_inv _ _ s (fun _ => False)); try assumption.
+  assert (H1 : sinv X s1).
+  { subst s1. apply (on_obj_inv X _ _ s (fun _ => False)); try assumption.
     - intros g (Hc & _). unfold part_ok, disj; cbn. repeat split; try assumption; try constructor; intros x _ [].
     - intros g y _ Hy. now left.
-    - intros y []. }
+    - intros y ? []. }
   destruct (g_conn (o_grp o)); [|assumption].
   destruct H1 as (A & B & C). unfold sinv, heap_ok, conn_ok, gmap_ok in *; cbn.
   split; [assumption|split].
@@ -442,20 +444,20 @@ Proof.
       cbn in Hi. destruct Hi as [Hi|Hi]; [apply Nat.eqb_neq in E; contradiction | now left].
 Qed.
 
-Lemma gstep_inv mk s e : sinv s -> sinv (gstep mk s e).
+Lemma gstep_inv X mk s e : sinv X s -> sinv X (gstep mk s e).
 Proof.
   intros H. destruct e; cbn [gstep].
   - destruct (get_group s gid); [destruct replace; [now apply new_group_inv | assumption] | now apply new_group_inv].
   - destruct (get_group s gid); [now apply obj_add_inv | assumption].
   - destruct (get_group s gid); [now apply obj_remove_inv | assumption].
   - destruct (get_group s gid); [|assumption].
-    apply (on_obj_inv _ _ s (fun _ => False)); try assumption.
+    apply (on_obj_inv X _ _ s (fun _ => False)); try assumption.
     + intros g. apply g_prune_ok.
     + intros g y _ Hy. rewrite g_prune_conn in Hy. now left.
-    + intros y [].
+    + intros y ? [].
   - apply fold_inv; [|assumption]. intros s0 gid Hs0.
     destruct (get_or_create gid s0) as [s' i] eqn:E.
-    assert (Hs' : sinv s') by (change s' with (fst (s', i)); rewrite <- E; now apply get_or_create_inv).
+    assert (Hs' : sinv X s') by (change s' with (fst (s', i)); rewrite <- E; now apply get_or_create_inv).
     destruct join; [now apply obj_add_inv | now apply obj_remove_inv].
   - now apply update_peer_groups_inv.
   - unfold gc_group. apply fold_inv; [|assumption]. intros; now apply gc_one_inv.
@@ -483,11 +485,12 @@ Proof.
     unfold ps_add. destruct (ps_exists p (nbrs s)); [assumption | apply in_or_app; now left].
   - (* EDisconnect *)
     destruct H as (A & B & C). unfold sinv, heap_ok, conn_ok, gmap_ok in *; cbn. split; [assumption|split; [|assumption]].
-    intros g i o q Hin Hnth Hq. destruct (B _ _ _ _ Hin Hnth Hq) as [Hn|Hn].
+    intros g i o q Hin Hnth Hq. destruct (B _ _ _ _ Hin Hnth Hq) as [Hn|[Hn|Hn]].
     + destruct (aeqb q p) eqn:E.
-      * apply aeqb_eq in E. subst. right. apply in_or_app. right. now left.
+      * apply aeqb_eq in E. subst. right. left. apply in_or_app. right. now left.
       * left. apply filter_In. split; [assumption|]. now rewrite E.
-    + right. apply in_or_app. now left.
+    + right. left. apply in_or_app. now left.
+    + right. now right.
   - (* GProcDisconnect *)
     destruct (pend s) as [|p r] eqn:Ep; [assumption|].
     destruct H as (A & B & C).
@@ -496,8 +499,8 @@ Proof.
     cbv zeta in L6. unfold sinv. split; [assumption|split].
     + unfold conn_ok. rewrite L2, L3, L4. cbn. intros g i o' q Hin Hnth Hq.
       destruct (L6 _ _ Hnth) as (o & Hn0 & Hinc & Hnot). cbn in Hn0.
-      destruct (B g i o q Hin Hn0 (Hinc _ Hq)) as [Hn|Hn]; [now left|].
-      rewrite Ep in Hn. destruct Hn as [<-|Hn]; [|now right].
+      destruct (B g i o q Hin Hn0 (Hinc _ Hq)) as [Hn|[Hn|Hn]]; [now left | | right; now right].
+      rewrite Ep in Hn. destruct Hn as [<-|Hn]; [|right; now left].
       exfalso. apply Hnot; [|assumption]. left. cbn. apply in_map_iff. exists (g, i). auto.
     + unfold gmap_ok. rewrite L2, L5. cbn. exact C.
 Qed.
